@@ -27,8 +27,12 @@ type toCase struct {
 	Earlier   bool   `json:"earlier_tolerated_failure,omitempty"` // allow_failure task whose first command exits non-zero before the overrun
 }
 
-func overrunCmd(shape, pidfile string) string {
+func overrunCmd(shape, pidfile string, timeoutMs int) string {
 	switch shape {
+	case "statements":
+		// many short statements: none of them overruns on its own, together they take 7 x the timeout
+		one := fmt.Sprintf("sleep %.3f", float64(timeoutMs)*0.6/1000)
+		return strings.Join([]string{one, one, one, one, one, one, one, one, one, one, one, one}, "\n")
 	case "busy":
 		return "i=0; while [ $i -lt 6000000 ]; do i=$((i+1)); done" // ~20 s of pure shell, bounded so that a tree without timeouts still terminates
 	case "ignore-int":
@@ -66,7 +70,7 @@ func runTimeoutCase(a args, tcx toCase, idx int, confirm bool) (suspect string) 
 	wantErr := false
 	switch tcx.Kind {
 	case "overrun":
-		over := tok("START") + "; " + overrunCmd(tcx.Shape, pidfile) + "; " + tok("SURVIVED")
+		over := tok("START") + "; " + overrunCmd(tcx.Shape, pidfile, tcx.TimeoutMs) + "; " + tok("SURVIVED")
 		if tcx.Variation {
 			t.Variations = []map[string]string{{"V": "v0"}, {"V": "v1"}}
 			over = "if [ \"$V\" = v1 ]; then " + over + "; else " + tok("quick") + "; fi"
@@ -210,7 +214,7 @@ func runTimeoutCase(a args, tcx toCase, idx int, confirm bool) (suspect string) 
 func modeTimeout(a args) {
 	var cases []toCase
 	rnd := h.NewRand(a.Seed, "timeout")
-	shapes := []string{"sleep", "busy", "ignore-int", "subshell", "pipeline"}
+	shapes := []string{"sleep", "busy", "ignore-int", "subshell", "pipeline", "statements"}
 	tmos := []int{100, 200, 400, 700, 1000}
 	for _, shape := range shapes {
 		for n := 1; n <= 3; n++ {
